@@ -22,7 +22,7 @@ RULE = ("agent parameter grids x market states (price histories built by real tr
 WIT = ["fcn_buy", "fcn_sell", "fcn_nothing", "fcn_inaccessible", "fcn_clock_below_window", "fcn_mean_reversion_distinct",
        "share_choice_0", "share_choice_1", "share_zero_volume", "mm_quotes", "mm_base_from_market_price", "mm_inaccessible_market_ignored",
        "mm_market_order_on_top", "arb_no_action_within_threshold", "arb_gap_exactly_threshold", "arb_buy_index", "arb_sell_index",
-       "arb_not_running", "arb_two_indices_acted", "arb_component_moved_between_consultations", "test_agent_cases", "fcn_normal_margin_cases", "fcn_on_index_market", "fcn_two_markets_different_clocks", "fcn_zero_or_negative_holdings", "fcn_parameters_reassigned_between_consultations", "group_member_setups", "well_formed_orders"]
+       "arb_not_running", "arb_two_indices_acted", "arb_index_shown_but_not_accessible", "arb_component_moved_between_consultations", "test_agent_cases", "fcn_normal_margin_cases", "fcn_on_index_market", "fcn_two_markets_different_clocks", "fcn_zero_or_negative_holdings", "fcn_parameters_reassigned_between_consultations", "group_member_setups", "well_formed_orders"]
 
 
 class Sim(Simulator):
@@ -546,11 +546,15 @@ def arb2_cases(tier):
                 for order in ("idx2_first", "idx3_first"):
                     for repeat in (1, 2):
                         yield (p2, p3, v, order, repeat)
+                    # mixed access: the agent is shown both index markets and may trade only one of them
+                    yield (p2, p3, v, order, 1, "only_idx2")
+                    yield (p2, p3, v, order, 1, "only_idx3")
 
 
 def arb2_fn(case, wit):
     """one long-lived arbitrage agent with access to TWO index markets of different sizes (n = 2 and n = 3)"""
-    p2, p3, v, order, repeat = case
+    p2, p3, v, order, repeat = case[:5]
+    access = case[5] if len(case) > 5 else "all"
     sim = Sim()
     comps = [mk_quote_market(sim, i, 100, "none", tr=p) for i, p in enumerate((100, 102, 98))]
     idxs = []
@@ -564,7 +568,8 @@ def arb2_fn(case, wit):
         sim.id2market[mid] = idx
         idxs.append(idx)
     a = ArbitrageAgent(7, random.Random(0), sim, "arb")
-    a.setup({"cashAmount": 1, "assetVolume": 1, "orderVolume": v, "orderThresholdPrice": 0.5, "orderTimeLength": 2}, [0, 1, 2, 3, 4])
+    a.setup({"cashAmount": 1, "assetVolume": 1, "orderVolume": v, "orderThresholdPrice": 0.5, "orderTimeLength": 2},
+            {"all": [0, 1, 2, 3, 4], "only_idx2": [0, 1, 2, 3], "only_idx3": [0, 1, 2, 4]}[access])
     markets = comps + (idxs if order == "idx2_first" else idxs[::-1])
     comp_prices = [100.0, 102.0, 98.0]
     for rep in range(repeat):
@@ -578,6 +583,11 @@ def arb2_fn(case, wit):
             well_formed(o, a, wit)
         for idx, ncomp, ci, ip in ((idxs[0], 2, sum(comp_prices[:2]) / 2, p2), (idxs[1], 3, sum(comp_prices) / 3, p3)):
             io = [o for o in orders if o.market_id == idx.market_id]
+            if (access == "only_idx2" and ncomp == 3) or (access == "only_idx3" and ncomp == 2):
+                if io:
+                    raise Violation("C20.arb_inaccessible", "an arbitrage agent submitted an order for an index market it cannot access", "%r index %s" % (case, idx.name))
+                wit.inc("arb_index_shown_but_not_accessible")
+                continue
             if abs(ip - ci) <= 0.5:
                 if io:
                     raise Violation("C20.arb_acts", "an arbitrage agent acted although the gap does not exceed its threshold", "%r index %s" % (case, idx.name))
